@@ -138,6 +138,10 @@ fn classify_kind(plan: &Plan, v: &Violation) -> String {
     });
     if plan.shuttle {
         "schedule_divergence".into()
+    } else if plan.clock_step_ns > 0 {
+        "clock_divergence".into()
+    } else if plan.heap_perturb > 0 {
+        "heap_layout_divergence".into()
     } else if ncalls > 1 || faults {
         "history_divergence".into()
     } else if permuted {
